@@ -18,3 +18,12 @@ claim("C14",
       "Literal values (text blocks, numbers, operator munch) are behavioural and not decided.",
       "Trusted: rustc nightly MIR; Unicode Table 3-7 transcription in rules/c14.py. Assumes SpanManager::intern_span stores what it is given (C16).",
       "DESIGN.md §2 C14")
+claim("C08",
+      "MIR finite-domain decision tables of the comparison/equality evaluator arms and operator lowering vs the Jsonnet spec",
+      "Decides structural necessary conditions of C08: (R1) the 7x7 type-pair tables of == and < (mixed types false / specific errors, "
+      "functions error), std.primitiveEquals likewise; (R2) every comparison operator and std.equals/__compare/__compare_array lowers to "
+      "the same three-way/equality machinery, with the exact set of orderings mapped to true for <,<=,>,>= and !=(negation); (R3) primitive "
+      "comparisons delegate to f64 ==/partial_cmp and str Eq/Ord; (R4) array equality/ordering continuation and early-exit tables. "
+      "All enumerated exhaustively over operand variants, orderings and CFG paths. Reflexivity/symmetry/transitivity over values are not decided.",
+      "Trusted: rustc MIR; spec tables transcribed in rules/c08.py; std f64/str comparison semantics; C06 (no NaN) for totality of partial_cmp.",
+      "DESIGN.md §2 C08")
